@@ -35,6 +35,7 @@ P = {
          "Duration multiplication with a non-constant operand and every reflect.Value.Convert of a possible number in the root package must be "
          "dominated by comparison facts on the same operand that imply the destination range, with constants evaluated exactly after the rounding "
          "of the comparison's type (math.MaxInt64 as float64 is 2^63, so the bound must be strict) and at least one true-edge fact for floats (NaN). "
+         "A number kept as text is converted by handing the stored text itself to strconv.Parse* (no rewriting in front of the parser). "
          "Integer seconds reach a Duration through integer arithmetic only (no detour through float64, which would round above 2^53). "
          "Thorough tier repeats the rules for GOARCH=386. Two known findings (reflect fall-through for unsupported kinds; int(idx) on 32-bit). "
          "That an in-range number is stored exactly, and strconv/time parsing, are not decided.",
@@ -48,8 +49,9 @@ P = {
          "lies under a reflect-kind fact that fixes the value to a struct/Config kind; the same for Validate() via tryValidate; accessField is the only "
          "reader of the validator tag and its result is what the family receives; the value handed to the validators is the value returned (up to "
          "pointer/interface wrappers; a default initialised after the validation is reported); every index of a list result is merged or validated. "
-         "One reasoned exception (pointer-to-map branch of reifyValue). "
-         "That each built-in validator computes the right predicate is not decided.",
+         "One reasoned exception (pointer-to-map branch of reifyValue). Every accepting path of a built-in tag validator that reads the value as a "
+         "float takes the true edge of a float comparison, so NaN is never accepted by default. "
+         "That each built-in validator computes the right predicate otherwise is not decided.",
          TRUST + "Custom validators and Validate() methods are user code: decided is that they are called.",
          "§3 C04"),
  "C05": (True,
@@ -77,7 +79,8 @@ P = {
          "dispatches of normalizeValue, reifyMergeValue, reifyValue and doReifyPrimitive are simulated: the writer accepts every kind the property "
          "names and the reader's converter accepts the value classes the writer produces; the cross-sign integer conversions have succeeding paths and "
          "their range guards admit the whole range of the destination (the extreme representable values pass); a Go value is read by its kind "
-         "(reflect Int/Uint/Float/Bool/String into a value constructor) only in normalizeValue, where the specially encoded types come first.",
+         "(reflect Int/Uint/Float/Bool/String into a value constructor) only in normalizeValue, where the specially encoded types come first; "
+         "the struct writer and the struct readers enumerate fields with the same reflect interface (no promoted fields on one side only).",
          TRUST + "Value equality after the round trip (number formatting and precision, pointer depth, nil vs empty, Duration text) is value-level and "
          "not decided; the class tables of handler functions and the inverse-pair table are frozen in the checker (unknown handlers are undecided).",
          "§3 C06"),
@@ -94,7 +97,8 @@ P = {
          "Type.Key/Elem, ...) on a parameter of an unexported function is allowed for every kind its callers can hand over (interprocedural kind "
          "facts from the dispatches dominating each call site, related to the argument through the chase helpers; six reasoned hand-over "
          "assumptions printed on every run); every evaluator of a dynamic value returns a value or an error, never neither; the index given to a "
-         "setter is capped by MaxIdx. Totality over all inputs is a runtime claim; decided is the guarding of each panic point. Third-party "
+         "setter is capped by MaxIdx; a string is converted through reflect only to a type of kind String; what reifyMergeValue returns is stored "
+         "into its slot with the slot's pointers restored; an exported function puts a *Config argument into the tree only under a nil test. Totality over all inputs is a runtime claim; decided is the guarding of each panic point. Third-party "
          "decoders, stack depth, parser-loop termination, kind preconditions of locals outside the dispatch rules and the convertibility "
          "precondition of reflect Convert are not decided.",
          TRUST + "The Go compiler's prove pass is trusted for the bounds checks it eliminates.",
@@ -126,7 +130,7 @@ P = {
          "Decides the aliasing statement behind 'source and destination stay independent': for Merge/NewFrom/MustNewFrom the source parameter is "
          "in no mod set and flows into neither destination, options, result nor globals; every value stored into a node by the merge strategies, "
          "fields.append and the cpy implementations is allocation-fresh with no transitive reference into the function's source; every cpy returns "
-         "a deep copy that copies the named and the indexed part of a node on one path; normalize* return values independent of the Go value they were built from. 'No shared mutable object exists after the merge' "
+         "a deep copy that copies the named and the indexed part of a node on one path; the copy of a primitive node is its own constructor applied to the new context, the receiver's metadata and the receiver's payload; normalize* return values independent of the Go value they were built from. 'No shared mutable object exists after the merge' "
          "holds for all sources, policies and later histories at once. Not decided: what user code does with captured *Config values.",
          TRUST + "E1 blobs all objects reachable from a parameter (shallow/deep); parameters assumed not to alias at entry; immutable shared types (expressions, paths, metadata) are cut and their immutability is checked separately (R11c).",
          "§3 C10, §2 E1"),
@@ -146,7 +150,9 @@ P = {
          "one function, parsePathIdx(own name, own idx, options from own arguments), and access their own receiver through the resulting path — so a "
          "getter reads back what a setter wrote at the same address; node storage is written only by the fields methods, on freshly constructed nodes, "
          "or by the merge functions (closed set of writers, each paired under C15). Also: Remove walks with environments cleared; a child handle is "
-         "the stored config itself and SetChild stores the caller's own config, wrapped and never copied; the path writer touches the live tree only with its last fallible step (missing levels are built detached), so a "
+         "the stored config itself, an index segment addresses only the list part of a node and a named segment only the dictionary part (getter, "
+         "setter and remover of a segment agree on where it lives; the path walkers use only those segment methods; each typed getter returns its own "
+         "accessor's result and each typed setter stores its own node kind with the argument as payload), and SetChild stores the caller's own config, wrapped and never copied; the path writer touches the live tree only with its last fallible step (missing levels are built detached), so a "
          "rejected write leaves the tree as it was; node mutators move stored values and never replace one by a copy. The equivalence with a plain tree over all operation histories is value-level and not decided.",
          TRUST,
          "§3 C12"),
@@ -156,7 +162,8 @@ P = {
          "read, copied out of, or the receiver of exactly one final Set whose operand derives from the fresh working copy and which is followed only by "
          "`return nil`; no other function ever receives an alias, so InitDefaults, field unpacking, Unpacker calls and validation run on the copy and "
          "every failing exit precedes the commit. reifySliceMerge only reads the old slice and returns a fresh one; accessField guards the field access "
-         "by the exported/!ignore tests and callers use it only under !skip; Unpack's list-policy dispatch partitions the policies exactly like Merge's. "
+         "by the exported/!ignore tests and callers use it only under !skip; Unpack's list-policy dispatch partitions the policies exactly like Merge's; "
+         "merge-or-replace is never decided on the stored representation of an unevaluated setting (a reference to a section is no cfgSub). "
          "Which fields are overwritten is value-level and not decided; maps and pointees are excluded by the property.",
          TRUST,
          "§3 C13"),
@@ -165,7 +172,8 @@ P = {
          "Decides the type half of the property for all inputs: every value that can reach an `error` result of the Config API (19 entry points) is "
          "traced back through phis, named results, captured locals, *error out-parameters, struct fields and callee results (interface calls joined "
          "over VTA) and must be nil or of a type implementing ucfg.Error; raw Err* variables, errors.New/fmt.Errorf, library and callback errors are "
-         "violations unless wrapped by a raise* constructor. Also: error literals carry a class variable and a reason that is non-nil on that path; "
+         "violations unless wrapped by a raise* constructor (an Error extracted from user code by assertion or errors.As and returned unwrapped "
+         "is one). Also: error literals carry a class variable and a reason that is non-nil on that path; "
          "constructors get context and metadata of one object, the receiver of the failing conversion. Message text / completeness of the path rest "
          "on C15 and are not decided.",
          TRUST + "Values of static type ucfg.Error are typed by the Go type system.",
@@ -177,7 +185,7 @@ P = {
          "(recovered from the producing cpy call, a following SetContext, the normalize call or the literal) pairs with the storage key and with the "
          "owner of the receiving fields; in-place element moves are followed by renumbering of every moved element; every SetContext implementation "
          "stores its argument reachably on every path; Parent() and path() read the same two fields; the text of an index field is the decimal "
-         "rendering of its own integer; an existing node is re-contexted only next to the store that attaches it or to renumber it. Since the invariant can only be broken at a "
+         "rendering of its own integer; every key FlattenedKeys emits has a context path in its derivation; an existing node is re-contexted only next to the store that attaches it or to renumber it. Since the invariant can only be broken at a "
          "store or a move, it holds after any operation history. FlattenedKeys' set equality and the diff partition are not decided.",
          TRUST,
          "§3 C15"),
@@ -186,7 +194,8 @@ P = {
          "Decides that XValues/FieldXValues install the same constant, that the constant reaches options.configValueHandling resp. the handling table, "
          "that every acyclic (feasible) path of fieldOptsOverride which returns the incoming options unchanged under a non-nil tree has established "
          "tree == child or an array hop, that the handling looked up is that of the key/index being merged, and that applying an Option writes no state "
-         "captured by the Option value (no memo, no captured tree installed into the options). Necessary for 'exactly the named subtree'; the merged "
+         "captured by the Option value (no memo, no captured tree installed into the options), and that the handling tree is written and read "
+         "under the same index classification options. Necessary for 'exactly the named subtree'; the merged "
          "values and wildcard semantics in full are not decided.",
          TRUST,
          "§3 C16"),
@@ -195,7 +204,8 @@ P = {
          "Decides that the flag-value parser inspects the next byte only at whitespace-skipped positions (every read of input[0] dominated by "
          "ignoreWhitespace() with no possible write of input in between; entry reads inherit the state from all call sites) — so whitespace that JSON "
          "allows around structural characters can never cause a rejection — that the skipper covers space, tab, line feed and carriage return, "
-         "that all of the parser's indexing is in bounds, and that each syntax "
+         "that all of the parser's indexing is in bounds, that an unquoted token reaches strconv.ParseFloat whenever the keyword tests and both exact "
+         "integer parses failed (no spelling filter in front of it), and that each syntax "
          "branch is entered only under its first byte and its Config flag (IgnoreCommas selects the stop set). Holds for all documents and flag "
          "combinations. That the data returned equals the JSON document (number syntax, escapes, string termination) is value-level and not decided.",
          TRUST + "strconv.Unquote/Parse* trusted.",
@@ -205,7 +215,8 @@ P = {
          "Decides that the yaml/json/hjson front-ends are structurally identical siblings (decode into a local, return the decoder error, "
          "NewFrom with the caller's options unchanged; file loaders prepend MetaData(Meta{Source:name}) and delegate), that the file name "
          "reaches options.meta, that every value and Config built by normalize* carries opts.meta, that the intermediate nodes created for a dotted "
-         "key take the metadata of the value being stored, that every error constructor forwards real metadata to messageMeta, and that no normalize "
+         "key take the metadata of the value being stored, that cfgInt, cfgUint and cfgFloat support the same conversions (the front-ends differ in which "
+         "of them a whole number becomes), that every error constructor forwards real metadata to messageMeta, and that no normalize "
          "function has a store path of its own for one decoder's representation (every named setting goes through normalizeSetField). Holds for all documents at once; equality of the data produced by the three third-party decoders is not decided.",
          TRUST + "Third-party decoders are outside the tree.",
          "§3 C18"),
@@ -215,7 +226,8 @@ P = {
          "NewFrom/Merge/Unpack or the collector's option field, that Collector.err is write-once and returned first, that FlagValue.Set feeds "
          "the collector on every path, and that the key=value loader treats empty values and bare keys as stated (an argument is ignored only when "
          "its raw value part is empty — never after the value was parsed, so null/[]/{} still override), and that the config a loader returns is "
-         "made by NewFrom / New+Merge or the user's file loader, so that the flag's options apply to the value. These are necessary structural "
+         "made by NewFrom / New+Merge or the user's file loader, so that the flag's options apply to the value, and that Collector.Add merges "
+         "only a non-nil config (an ignored argument yields none). These are necessary structural "
          "clauses of C19 that hold for all argument sequences at once; equality with a sequence of merges (a value-level fact) is not decided.",
          TRUST + "Does not cover user-supplied FileLoader functions.",
          "§3 C19"),
@@ -224,7 +236,7 @@ P = {
          "Decides the index/name classifier for ALL integers and flags: the guard in front of every index-field return of parseField is read from "
          "SSA and evaluated on every ordering region of (idx, maxIdx) x numKeys x parse error; it must equal !numKeys && parsed && 0<=idx<=maxIdx. "
          "Also: names returned unmodified, numeric keys cleared only for multi-segment paths, ParseInt(in,0,64), parseField is the only text->index "
-         "classifier. Because the code touches the number only through comparisons the finite table is exhaustive; list growth is under C07.",
+         "classifier; an index segment is never answered from the dictionary part of a node. Because the code touches the number only through comparisons the finite table is exhaustive; list growth is under C07.",
          TRUST + "strconv.ParseInt is trusted to implement Go integer syntax.",
          "§3 C20"),
 }
